@@ -30,7 +30,7 @@ REQUIRED = {
 
 def strings(cfg, rng):
     corp = WT.corpus()
-    n = cfg.scale(2500, 60000)
+    n = cfg.scale(8000, 120000)
     for i, s in enumerate(corp):
         if cfg.mine(i):
             yield s
